@@ -16,7 +16,8 @@ from pyvolutionary.multitask import Multitask
 ID = "C20"
 LEVEL = "exploration"
 DRAWN = {"quick": 96, "thorough": 800}
-RULE = ("Scripted optimizers (distinct names AlgoA/B/C) that log every optimize() call (algorithm, task, mode, workers) "
+RULE = ("Scripted optimizers (distinct classes AlgoA/B/C, or - one drawn case in four with n >= 2 and every enumerated "
+        "per-algorithm / per-pair shape - several configurations of the one class AlgoA) that log every optimize() call (algorithm, task, mode, workers) "
         "to an append-only file drive the real Multitask. Enumerated: every (n algorithms, m tasks) in 1..3 x 1..3 x every "
         "`modes` shape in {None, 1-tuple, n-tuple, m-tuple, n*m-tuple, wrong-length tuple} with mode values rotating "
         "through serial/thread/process so that every slot is distinguishable; drawn by Hypothesis: the same space with "
@@ -29,6 +30,8 @@ RULE = ("Scripted optimizers (distinct names AlgoA/B/C) that log every optimize(
         "else. Non-trivial = n >= 2 and m >= 2 with a non-broadcast `modes` shape, or an export, or a rejected "
         "construction; distinct = SHA-256 of the case.")
 ASSUMPTIONS = ["tasks are of distinct classes (Multitask names table columns by task class)",
+               "the export law is applied to algorithms of distinct classes only (folders and files are named after the "
+               "class, so two configurations of one class share a path by design)",
                "Multitask's own process pools are real; their scheduling does not matter to the oracle (multisets)"]
 ALGOS = ("AlgoA", "AlgoB", "AlgoC")
 TASKS = ("TaskOne", "TaskTwo", "TaskThree")
@@ -69,10 +72,15 @@ def laws(c):
         L.log_path = os.path.join(tmp, "calls.log")
         L.scores, L.counters = {}, {}
         algos = []
-        for name in ALGOS[:n]:
+        same = bool(c.get("same_class")) and n >= 2
+        names = [ALGOS[0]] * n if same else list(ALGOS[:n])
+        for i, name in enumerate(names):
             a = getattr(scripted, name)()
-            a.set_config_parameters({})
+            # several configurations of one optimizer class are told apart by their parameter `a` in the call log
+            a.set_config_parameters({"a": i} if same else {})
             algos.append(a)
+        label = (lambda r: f"{r['algo']}#{r['params'].get('a')}") if same else (lambda r: r["algo"])  # noqa: E731
+        want_label = (lambda i: f"{ALGOS[0]}#{i}") if same else (lambda i: ALGOS[i])  # noqa: E731
         variables = scripted.dummy_task().variables
         tasks_ = [getattr(scripted, t)(variables=variables) for t in TASKS[:m]]
         if c.get("preused"):
@@ -94,8 +102,8 @@ def laws(c):
         with contextlib.redirect_stdout(io.StringIO()):
             mt.execute(n_trials=c["n_trials"], n_jobs=c["n_jobs"])
         log = scripted.read_log(L.log_path)
-        got = sorted((r["algo"], r["task"], r["mode"], r["workers"]) for r in log)
-        want = sorted((ALGOS[i], TASKS[j], ref[i][j], c["n_workers"]) for i in range(n) for j in range(m)
+        got = sorted((label(r), r["task"], r["mode"], r["workers"]) for r in log)
+        want = sorted((want_label(i), TASKS[j], ref[i][j], c["n_workers"]) for i in range(n) for j in range(m)
                       for _ in range(c["n_trials"]))
         if [g[:2] for g in got] != [w[:2] for w in want]:
             out.append((key("pairs"), f"{desc} n_trials={c['n_trials']}: calls per pair "
@@ -108,12 +116,12 @@ def laws(c):
             out.append((key("tables"), f"{desc}: {len(mt._df2)} tables for {n} algorithms"))
         else:
             for i, df in enumerate(mt._df2):
-                cols = [f"{ALGOS[i]}_{TASKS[j]}" for j in range(m)]
+                cols = [f"{names[i]}_{TASKS[j]}" for j in range(m)]
                 if df.shape != (c["n_trials"], m) or list(df.columns) != cols:
-                    out.append((key("table-shape"), f"{desc}: table of {ALGOS[i]} has shape {df.shape} columns "
+                    out.append((key("table-shape"), f"{desc}: table of {names[i]} has shape {df.shape} columns "
                                                     f"{list(df.columns)}, expected {(c['n_trials'], m)} {cols}"))
                     break
-        if c["export"] and not out:
+        if c["export"] and not out and not same:
             path = os.path.join(tmp, "export")
             mt.export_results(c["export"], path)
             found = sorted(os.path.relpath(os.path.join(d, f), path) for d, _, fs in os.walk(path) for f in fs)
@@ -165,7 +173,8 @@ def drawn_case(draw):
     return {"n": n, "m": m, "modes": modes, "n_trials": draw(st.integers(1, 3)),
             "n_workers": draw(st.sampled_from([None, 1, 2, 4])), "n_jobs": draw(st.integers(1, 4)),
             "export": draw(st.sampled_from([None, "csv", "json", "dataframe"])),
-            "preused": draw(st.sampled_from([None, None, None, "thread", "process"]))}
+            "preused": draw(st.sampled_from([None, None, None, "thread", "process"])),
+            "same_class": n >= 2 and draw(st.integers(0, 3)) == 0}
 
 
 def shards(tier):
@@ -186,23 +195,26 @@ def run_shard(shard, tier, seed):
                  "n_workers": [None, 2][(n + si) % 2], "n_jobs": 2,
                  "export": [None, "csv", "json", "dataframe"][(n * 3 + m + si) % 4],
                  "preused": [None, "thread"][(n + m + si) % 2]}
-            vio, nt = laws(c)
-            ctx.case(c, nt, [f"shape:{shape}", "enumerated"])
-            try:
-                ctx.judge(c, vio)
-            except runner.PropertyViolation:
-                p, unknown = ctx.failing
-                path = runner.write_replay(ID, ctx.shard, p, unknown)
-                for k, d in unknown:
-                    ctx.violations.append({"key": k, "detail": d, "replay": path})
-                    ctx.also_known.add(k)
-                ctx.shrinking = False
+            cases = [c] + ([dict(c, same_class=True, export=None)] if n >= 2 and shape in ("n", "nm") else [])
+            for c in cases:
+                vio, nt = laws(c)
+                ctx.case(c, nt, [f"shape:{shape}", "enumerated"] + (["same-class algorithms"] if c.get("same_class") else []))
+                try:
+                    ctx.judge(c, vio)
+                except runner.PropertyViolation:
+                    p, unknown = ctx.failing
+                    path = runner.write_replay(ID, ctx.shard, p, unknown)
+                    for k, d in unknown:
+                        ctx.violations.append({"key": k, "detail": d, "replay": path})
+                        ctx.also_known.add(k)
+                    ctx.shrinking = False
         return ctx.to_dict()
 
     def case(c):
         vio, nt = laws(c)
         k = "none" if c["modes"] is None else str(len(c["modes"]))
-        ctx.case(c, nt, ["drawn", f"export:{c['export']}", f"modes_len:{k}"])
+        ctx.case(c, nt, ["drawn", f"export:{c['export']}", f"modes_len:{k}"]
+                 + (["same-class algorithms"] if c.get("same_class") else []))
         ctx.judge(c, vio)
 
     runner.drive(ctx, drawn_case(), case, shard["count"], seed, max_shrink_evals=60)
